@@ -183,7 +183,7 @@ Proof.
     destruct (h_data_bad _ _ _ _ _ Eh) as (Hne & Hex).
     destruct h'; inversion H; subst; try (apply Hex; reflexivity);
       (destruct Hne as (Hn & Hb); [discriminate|]); (split; [exact Hn|]); try exact Hb; reflexivity.
-  - inversion H; subst. split; [nb|reflexivity].
+  - destruct (negb (esmtp s)); inversion H; subst; (split; [nb|reflexivity]).
   - (* smtp_auth *)
     destruct (authed s || negb (o_authperm o)); [inversion H; subst; split; [nb|reflexivity]|].
     destruct (o_auth o (skipn 5 l)); inversion H; subst; [split; [nb|reflexivity]|split; [nb|reflexivity]|simpl; discriminate].
